@@ -28,3 +28,31 @@ pub fn permute<T: Ord>(items: &mut Vec<T>) {
         items.swap(i, i + j);
     }
 }
+
+/// Order of the records of an ANY answer (hook H10): in production the
+/// iteration order of a per-name `HashMap` keyed by record type, seeded per
+/// process by the OS.  Here: sorted, then (inside a simulated world) a keyed
+/// permutation, benign default the sorted order.  Outside a world (the
+/// harness's own oracle calls) it is just sorted.
+pub fn canonical<T: Ord>(items: &mut Vec<T>, site: &str) {
+    items.sort();
+    let n = items.len();
+    if n < 2 || !world::is_installed() {
+        return;
+    }
+    let mut fact: u64 = 1;
+    for i in 2..=n.min(8) as u64 {
+        fact *= i;
+    }
+    let mut k = world::with(|w| {
+        let entity = format!("{}.{site}", w.ctx_label());
+        w.choose("order.any_answer", &entity, fact)
+    });
+    let m = n.min(8);
+    for i in 0..m {
+        let radix = (m - i) as u64;
+        let j = usize::try_from(k % radix).unwrap();
+        k /= radix;
+        items.swap(i, i + j);
+    }
+}
